@@ -86,22 +86,22 @@ theorem links_get (H : Bytes → Bytes) (ch : Fin 16 → PTree) (j : Nat) :
 /-! ### the loop on a proof cut from a tree -/
 
 /-- under `IndexOK`, the loop runs through the honest proof without `UNLINKED_NODE`, ends with the tree's hash and
-    has assembled `codeTrace` -/
+    has assembled `trace`: each branch's own path, then the nibble of the link taken -/
 theorem walk_proof (H : Bytes → Bytes) (t : PTree) :
     ∀ key, t.WF → t.isEmpty = false → t.IndexOK H key →
-      walk H (t.proof H key) = .ok (t.hash H) (t.codeTrace key) := by
+      walk H (t.proof H key) = .ok (t.hash H) (t.trace key) := by
   induction t with
   | empty => intro key _ h; simp [PTree.isEmpty] at h
   | leaf p v =>
     intro key hwf _ _
-    simp only [PTree.proof, walk, nodeHash_leaf H p v hwf, Node.path, hexPath_toPath p hwf, PTree.codeTrace]
+    simp only [PTree.proof, walk, nodeHash_leaf H p v hwf, Node.path, hexPath_toPath p hwf, PTree.trace]
   | branch p ch ih =>
     intro key hwf _ hidx
     have hp := hwf.1
     have hsingle : walk H [branchNode H p ch] = .ok ((PTree.branch p ch).hash H) p := by
       simp only [walk, nodeHash_branch H p ch hp]
       simp [branchNode, Node.path, hexPath_toPath p hp]
-    simp only [PTree.proof, PTree.codeTrace, PTree.IndexOK] at hidx ⊢
+    simp only [PTree.proof, PTree.trace, PTree.IndexOK] at hidx ⊢
     cases hs : stepKey p key with
     | none => simpa [hs] using hsingle
     | some x =>
@@ -137,28 +137,6 @@ theorem walk_proof (H : Bytes → Bytes) (t : PTree) :
           simp
       · simp only [hn, dif_neg, not_false_eq_true]
         simpa using hsingle
-
-theorem codeTrace_eq_trace (t : PTree) : ∀ key, t.EmptyAbove key → t.codeTrace key = t.trace key := by
-  induction t with
-  | empty => intro _ _; rfl
-  | leaf p v => intro _ _; rfl
-  | branch p ch ih =>
-    intro key he
-    simp only [PTree.codeTrace, PTree.trace, PTree.EmptyAbove] at he ⊢
-    cases hs : stepKey p key with
-    | none => simp
-    | some x =>
-      obtain ⟨n, rest⟩ := x
-      simp only [hs] at he ⊢
-      by_cases hn : n < 16
-      · simp only [hn, dif_pos] at he ⊢
-        cases hem : (ch ⟨n, hn⟩).isEmpty with
-        | true => simp
-        | false =>
-          obtain ⟨hp, hsub⟩ := he hem
-          subst hp
-          simp [ih ⟨n, hn⟩ rest hsub]
-      · simp [hn]
 
 /-! ### where the honest proof ends -/
 
@@ -315,13 +293,14 @@ theorem walk_unlinked_at (H : Bytes → Bytes) (p : Path) (links : List (Option 
     walk H (.branch p links :: post) = .unlinked := by
   simp [walk, hpost, hh, hnot]
 
-/-- what the loop has assembled for a path and for a proper prefix of it -/
+/-- what the loop has assembled for a path and for a proper prefix of it: the prefix's string, the nibble of the link
+    from the prefix's last node (a branch) to the next node, then the remainder's string -/
 theorem walk_prefix (H : Bytes → Bytes) (post : List Node) (hpost : post ≠ []) :
     ∀ (pre : List Node) (h : Bytes) (a : List Nat), pre ≠ [] → walk H (pre ++ post) = .ok h a →
       ∃ a0 p links child apost,
         pre.getLast? = some (.branch p links) ∧ walk H post = .ok child apost ∧ some child ∈ links ∧
-        walk H pre = .ok h (a0 ++ hexPath p) ∧
-        a = a0 ++ (hexDigitsOf (links.idxOf (some child)) ++ (hexPath p ++ apost)) := by
+        walk H pre = .ok h a0 ∧
+        a = a0 ++ (hexDigitsOf (links.idxOf (some child)) ++ apost) := by
   intro pre
   induction pre with
   | nil => intro h a hne; exact absurd rfl hne
@@ -347,7 +326,7 @@ theorem walk_prefix (H : Bytes → Bytes) (post : List Node) (hpost : post ≠ [
             split at hw
             · rename_i hc
               simp only [Walk.ok.injEq] at hw
-              refine ⟨[], p, links, child, apost, by simp, rfl, List.contains_iff_mem.1 hc, ?_, ?_⟩
+              refine ⟨hexPath p, p, links, child, apost, by simp, rfl, List.contains_iff_mem.1 hc, ?_, ?_⟩
               · simp [walk, hn, Node.path, hw.1]
               · simp [← hw.2]
             · cases hw
@@ -372,7 +351,7 @@ theorem walk_prefix (H : Bytes → Bytes) (post : List Node) (hpost : post ≠ [
             split at hw
             · rename_i hc
               simp only [Walk.ok.injEq] at hw
-              refine ⟨hexDigitsOf (links'.idxOf (some c)) ++ (hexPath q ++ a0), p, links, child, apost, ?_, hwpost, hmem, ?_, ?_⟩
+              refine ⟨hexPath q ++ (hexDigitsOf (links'.idxOf (some c)) ++ a0), p, links, child, apost, ?_, hwpost, hmem, ?_, ?_⟩
               · rw [getLast?_cons_of_ne_nil _ _ hpre]; exact hlast
               · simp [walk, hwpre, hn, List.contains_iff_mem.1 hc, hw.1]
               · rw [← hw.2, ha1]; simp
@@ -383,37 +362,27 @@ theorem idxOf_getElem? {α} [BEq α] [LawfulBEq α] (l : List α) (a : α) (h : 
   rw [List.getElem?_eq_getElem hlt]
   simp
 
-/-- under `EmptyAbove`, every node of the honest proof that is followed by another node is a branch with an empty path -/
+/-- every node of the honest proof that is followed by another node is a branch node of the tree (16 link slots) -/
 theorem proof_nonlast_branch (H : Bytes → Bytes) (t : PTree) :
-    ∀ key i, i + 1 < (t.proof H key).length → t.EmptyAbove key →
-      ∃ ch, (t.proof H key)[i]? = some (branchNode H [] ch) := by
+    ∀ key i, i + 1 < (t.proof H key).length → ∃ p ch, (t.proof H key)[i]? = some (branchNode H p ch) := by
   induction t with
   | empty => intro key i h; simp [PTree.proof] at h
   | leaf p v => intro key i h; simp [PTree.proof] at h
   | branch p ch ih =>
-    intro key i hlen hempty
-    simp only [PTree.proof, PTree.EmptyAbove] at hlen hempty ⊢
-    cases hs : stepKey p key with
-    | none => simp [hs] at hlen
-    | some x =>
-      obtain ⟨n, rest⟩ := x
-      simp only [hs] at hlen hempty ⊢
-      by_cases hn : n < 16
-      · simp only [hn, dif_pos] at hlen hempty ⊢
-        have hne : (ch ⟨n, hn⟩).isEmpty = false := by
-          cases he : (ch ⟨n, hn⟩).isEmpty with
-          | false => rfl
-          | true =>
-            rw [(proof_nil_iff H _ rest).2 he] at hlen
-            simp at hlen
-        obtain ⟨hp, hsub⟩ := hempty hne
-        subst hp
-        cases i with
-        | zero => exact ⟨ch, by simp⟩
-        | succ j =>
-          simp only [List.length_cons] at hlen
-          obtain ⟨ch', hch'⟩ := ih ⟨n, hn⟩ rest j (by omega) hsub
-          exact ⟨ch', by simpa using hch'⟩
-      · simp [hn] at hlen
+    intro key i hlen
+    simp only [PTree.proof] at hlen ⊢
+    cases i with
+    | zero => exact ⟨p, ch, by simp⟩
+    | succ j =>
+      cases hs : stepKey p key with
+      | none => simp [hs] at hlen
+      | some x =>
+        obtain ⟨n, rest⟩ := x
+        simp only [hs] at hlen ⊢
+        by_cases hn : n < 16
+        · simp only [hn, dif_pos, List.length_cons] at hlen ⊢
+          obtain ⟨p', ch', hch'⟩ := ih ⟨n, hn⟩ rest j (by omega)
+          exact ⟨p', ch', by simpa using hch'⟩
+        · simp [hn] at hlen
 
 end SymbolVerif.Sdk.Patricia
